@@ -267,6 +267,40 @@ def run_C07():
                             res.violation("c07/property-type", "%s.%s type %x expected %s" % (path, name, pt, key))
         except AssertionError:
             pass
+    # acquisition pattern: one writer session, the same channels in every segment, listed in a different order
+    # from segment to segment (the reader must not carry an earlier segment's object order over)
+    for it in range(int(120 * BUDGET)):
+        nchan = rng.randint(2, 3)
+        nseg = rng.randint(3, 5)
+        names = ["c%d" % i for i in range(nchan)]
+        dts = [rng.choice(["int32", "float64", "int16"]) if rng.random() < 0.5 else "float64" for _ in names]
+        if rng.random() < 0.6:
+            dts = [dts[0]] * nchan                       # equal types and lengths: a swap stays silent
+        written = {n: [] for n in names}
+        stream = io.BytesIO()
+        try:
+            with TdmsWriter(stream, version=rng.choice([4712, 4713])) as w:
+                for sgi in range(nseg):
+                    order = list(range(nchan))
+                    rng.shuffle(order)
+                    ln = rng.randint(1, 3)
+                    objs = []
+                    for k in order:
+                        arr = np.array([rng.randint(-1000, 1000) for _ in range(ln)], dtype=dts[k])
+                        written[names[k]].append(arr)
+                        objs.append(ChannelObject("g", names[k], arr))
+                    w.write_segment(objs)
+            tf = TdmsFile.read(io.BytesIO(stream.getvalue()))
+        except Exception as e:
+            res.violation("c07/reordered-channels-raised", repr(e))
+            continue
+        res.case(("reorder", it), True)
+        for n in names:
+            want = np.concatenate(written[n])
+            got = tf["g"][n][:]
+            if not (got.dtype == want.dtype and np.array_equal(got, want)):
+                res.violation("c07/reordered-channels-data", "%s wrote %r read %r" % (n, want, got),
+                              file_script(stream.getvalue(), "print(TdmsFile.read(io.BytesIO(data))['g'][%r][:]); sys.exit(1)\n" % n))
     return res
 
 
@@ -581,7 +615,15 @@ def run_C10():
             res.violation("c10/defragment-raised", repr(e), file_script(src, "from nptdms import TdmsWriter\nTdmsWriter.defragment(io.BytesIO(data), io.BytesIO())\n"))
             continue
         a = TdmsFile.read(io.BytesIO(src), raw_timestamps=True)
-        b = TdmsFile.read(io.BytesIO(out.getvalue()), raw_timestamps=True)
+        try:
+            b = TdmsFile.read(io.BytesIO(out.getvalue()), raw_timestamps=True)
+            TdmsFile.read(io.BytesIO(out.getvalue()))
+        except Exception as e:
+            res.violation("c10/copy-unreadable", repr(e),
+                          file_script(src, "from nptdms import TdmsWriter\nout = io.BytesIO()\n"
+                                           "TdmsWriter.defragment(io.BytesIO(data), out)\n"
+                                           "TdmsFile.read(io.BytesIO(out.getvalue()))\n"))
+            continue
         if [g.name for g in a.groups()] != [g.name for g in b.groups()]:
             res.violation("c10/groups-differ", "%r vs %r" % ([g.name for g in a.groups()], [g.name for g in b.groups()]))
             continue
